@@ -5,11 +5,11 @@ CONSTANTS
   RealP = {20, 155, 244, 496, 512}
   RealMax = 5000
   Ctr0s = {0, 5}
-  RespM = {0, 1, 2, 3, 4, 5, 6, 7, 8, 9}
-  RespSt = {0, 1, 2, 3, 4, 5, 6}
+  RespM = {0, 1, 2, 3, 4, 5, 6, 7, 8}
+  RespSt = {0, 3, 6}
   RealQ = {20, 155, 244, 496, 512}
-  CoapNsA = {1, 2, 3, 4}   OkLensA = {0, 3, 300}  ErrStA = {1, 2, 3, 4, 5, 6}  ErrLensA = {0, 3}  FaultLensA = {0, 3, 300}
-  CoapNsB = {5, 6}   OkLensB = {0, 300}     ErrStB = {1, 6}                 ErrLensB = {0}     FaultLensB = {0, 300}
+  CoapNsA = {1, 2, 3, 4}   OkLensA = {0, 3, 300}  ErrStA = {1, 2, 3, 4, 5, 6}  ErrLensA = {0}  FaultLensA = {0, 3, 300}
+  CoapNsB = {5, 6}   OkLensB = {0, 300}     ErrStB = {6}                 ErrLensB = {0}     FaultLensB = {300}
 INVARIANT BleFragmentSize
 INVARIANT BleReassembly
 INVARIANT NoEmptyContinuation
